@@ -25,6 +25,20 @@
 // options (--opt): cfg=N (force configuration N), nopif=1 (never call processIf),
 //                  nomulti=1 (only predicates callable with exactly one prototype),
 //                  live=1 (print every op-log line to stderr at once: witness of a case that ends in a sanitizer abort)
+//
+// build: 9 configurations (case n runs configuration n % 9); one configuration per
+// binary (-DVF_CFG_MASK=0x1, 0x2, ... 0x100) keeps every compilation under a minute
+// (asan17: ~35 s list / dispatcher, ~45 s queue configurations).
+//
+// non-trivial case (marked with the hash of its trace):
+//   queue configurations: events of >= 3 different prototypes were enqueued AND a
+//     processIf ran while the queue held both events of a prototype its predicate is
+//     callable with and events of a prototype it is not callable with AND a recycled
+//     slot received an event of another kind than it held before AND >= 1 listener
+//     call was observed;
+//   list / dispatcher configurations: listeners bound to >= 3 different prototypes AND
+//     >= 1 callable accepted by several prototypes was added AND >= 1 invocation
+//     reached a listener AND >= 1 successful remove.
 #include "vcommon.h"
 #include "vledger.h"
 #include "vaccess.h"
@@ -285,7 +299,7 @@ static Mode modeOf(const std::string & m)
 // ------------------------------------------------------------------ the world: model + monitor (not a template: compiled once)
 struct GH { int index; std::weak_ptr<void> wp; GH() : index(0) {} GH(int i, const std::weak_ptr<void> & w) : index(i), wp(w) {} };
 struct MLis { int ki, idx, ft; bool live; unsigned mask; };
-struct MEv { int id, kind, idx, ki, state, slot; Fp fp; }; // state: 0 queued, 1 dispatched, 2 cleared, 3 direct
+struct MEv { int id, kind, idx, ki, state, slot; bool keyTemp; Fp fp; }; // state: 0 queued, 1 dispatched, 2 cleared, 3 direct
 struct Exp { int lid, ev; };
 struct AddPlan { int ki, ft, lid, idx, how, before; unsigned mask; GH hb; std::string what; };
 
@@ -509,6 +523,12 @@ struct WorldBase : HSink
 	}
 
 	// ---------------------------------------------------------------- events
+	std::string evClass(const MEv & e) const { return hasKey ? (e.keyTemp ? ":event-key=temporary" : ":event-key=lvalue") : std::string(); }
+	std::string evStr(const MEv & e) const { return "e" + num(e.id) + " (" + kKindName[e.kind] + ", P" + num(e.idx) + ", " + kstr(e.ki) + (e.keyTemp ? " passed as a temporary" : "") + ")"; }
+	void failMissed(const std::string & op) {
+		const MEv & e = events[(size_t)expectQ.front().ev];
+		fail(op + ":missed-listener-call" + evClass(e), op + " returned without calling l" + num(expectQ.front().lid) + " for " + evStr(e));
+	}
 	void pushExpect(int ev) {
 		const MEv & e = events[(size_t)ev];
 		const std::vector<int> & o = lists[e.ki][e.idx];
@@ -535,6 +555,13 @@ struct WorldBase : HSink
 		const Exp x = expectQ.front();
 		const MEv & e = events[(size_t)x.ev];
 		if(x.lid != lid) {
+			// the call belongs to a later event of the batch: the listeners of the events in between were skipped
+			for(size_t j = 1; j < expectQ.size(); ++j) {
+				const MEv & e2 = events[(size_t)expectQ[j].ev];
+				if(expectQ[j].ev == x.ev || expectQ[j].lid != lid || ! fp.sameArgs(e2.fp) || (include && fp.key != e2.fp.key) || expectQ[j - 1].ev == expectQ[j].ev) continue;
+				fail(std::string(curOp) + ":event-not-delivered-to-its-listeners" + evClass(e), "l" + num(x.lid) + " was not called for " + evStr(e) + "; the next call is l" + num(lid) + " for " + evStr(e2));
+				return;
+			}
 			std::string cls = "unknown-listener";
 			if(lid >= 0 && lid < (int)lis.size()) {
 				const MLis & l = lis[(size_t)lid];
@@ -624,7 +651,7 @@ struct WorldBase : HSink
 
 	// model side of one enqueue / direct dispatch; the library call follows
 	int beginEvent(bool enq, int ki, int kind, int id, bool inside, unsigned mask, bool keyTemp) {
-		MEv e; e.id = id; e.kind = kind; e.idx = firstOf(mask); e.ki = ki; e.state = enq ? 0 : 3; e.slot = -1; e.fp = fpForEvent(kind, id);
+		MEv e; e.id = id; e.kind = kind; e.idx = firstOf(mask); e.ki = ki; e.state = enq ? 0 : 3; e.slot = -1; e.keyTemp = keyTemp; e.fp = fpForEvent(kind, id);
 		if(include) e.fp.key = keyFps[ki];
 		const int ev = (int)events.size();
 		if(bitsOf(mask) > 1) count("route.arguments_accepted_by_several_prototypes");
@@ -665,7 +692,8 @@ struct WorldBase : HSink
 		return ev;
 	}
 	void endDirect(int ev) {
-		if(! dead && ! expectQ.empty()) fail(std::string(curOp) + ":missed-listener-call", "returned without calling l" + num(expectQ.front().lid) + " for e" + num(events[(size_t)ev].id));
+		(void)ev;
+		if(! dead && ! expectQ.empty()) failMissed(curOp);
 		expectQ.clear();
 		curOp = "idle";
 	}
@@ -690,7 +718,7 @@ struct WorldBase : HSink
 		const bool r = vProcess(one);
 		log("  -> " + num(r));
 		releaseSlots(slots);
-		if(! dead && ! expectQ.empty()) fail(std::string(curOp) + ":missed-listener-call", std::string(curOp) + " returned without calling l" + num(expectQ.front().lid) + " for e" + num(events[(size_t)expectQ.front().ev].id));
+		if(! dead && ! expectQ.empty()) failMissed(curOp);
 		expectQ.clear();
 		if(! dead && r != ! batch.empty()) fail(std::string(curOp) + ":result", std::string(curOp) + " returned " + num(r) + " with " + num((long long)batch.size()) + " event(s) queued");
 		curOp = "idle";
@@ -719,7 +747,7 @@ struct WorldBase : HSink
 		pifActive = false;
 		log("  -> " + num(r) + " examined=" + num(pifExamined) + " accepted=" + num(pifApproved));
 		releaseSlots(pifSlots);
-		if(! dead && ! expectQ.empty()) fail("processIf:missed-listener-call", "processIf returned without calling l" + num(expectQ.front().lid) + " for accepted event e" + num(events[(size_t)expectQ.front().ev].id));
+		if(! dead && ! expectQ.empty()) failMissed("processIf");
 		expectQ.clear();
 		if(! dead && r != (pifApproved > 0)) fail("processIf:result", "processIf returned " + num(r) + " after dispatching " + num(pifApproved) + " event(s)");
 		if(pifApproved == 0 && pifOwn > 0) count("processIf.calls_declining_everything");
